@@ -1,4 +1,5 @@
 import Pms.Props.C17
+import Pms.Props.C17Real
 
 #print axioms Pms.LocalOrder.C17_tetra_def
 #print axioms Pms.LocalOrder.C17_tetra_perfect
@@ -21,3 +22,8 @@ import Pms.Props.C17
 #print axioms Pms.LocalOrder.C17_gyration_descriptors
 #print axioms Pms.LocalOrder.C17_gyration_bounds
 #print axioms Pms.LocalOrder.C17_gyration_2d
+#print axioms Pms.LocalOrder.C17_s2_filter_sq
+#print axioms Pms.LocalOrder.C17_s2_integrand_nonneg
+#print axioms Pms.LocalOrder.C17_s2_ideal
+#print axioms Pms.LocalOrder.C17_s2_nonpos
+#print axioms Pms.LocalOrder.C17_tetra_perfect_geometry
